@@ -37,7 +37,18 @@ def models():
     out.append(space.bind_def(3, 2, 0, order=2, sensors_shape=(2, 1)))
     from fv.props.c12 import gentle_def
     out.append(gentle_def(1, 1, 1, (2, 1), 0))  # bounded pendulum-like dynamics: long histories stay O(1)
+    out.append(lin_full())
     return out
+
+
+def lin_full():
+    """linear, stable, and fully observed by one two-reading sensor: an update collapses a diffuse prior in every direction"""
+    S, DT, add, sub, mul, C = space.S, space.DT, space.add, space.sub, space.mul, space.C
+    x, y, u = S("x"), S("y"), S("u")
+    model = [["x", add(add(x, mul(DT, y)), mul(mul(C(1, 4), DT), u))], ["y", add(mul(C(7, 8), y), mul(DT, u))]]
+    sensors = [["full", [["b", sub(y, mul(C(1, 4), x))], ["a", add(x, mul(C(1, 2), y))]]], ["part", [["p", x]]]]
+    snoise = [["part", [["p", 0.5]]], ["full", [["a", 0.25], ["b", 1.0]]]]
+    return space.mkdef("lin-full", ["y", "x"], ["u"], [], model, [], [["u", 0.25]], sensors, snoise)
 
 
 def p0_menu(n):
@@ -67,6 +78,12 @@ def cases(tier, seed):
     for d in models():
         for pname, P in p0_menu(len(d["state"])):
             yield {"def": d, "P0": P, "P0name": pname, "depth": depth, "seed": seed}
+    # a diffuse prior (2^34 I, the usual way to say "unknown") on the linear models: nothing may be refused
+    for d in models():
+        if d["name"] in ("sing-rocket", "sing-dup", "sing-const", "lin-full"):
+            n_ = len(d["state"])
+            yield {"def": d, "P0": [[2.0 ** 34 if i == j else 0.0 for j in range(n_)] for i in range(n_)], "P0name": "2^34*I",
+                   "depth": depth, "seed": seed, "pbound": 2.0 ** 60}
     # long histories: EVERY periodic event pattern of period 1 and 2 over the same alphabet, run for many steps
     for d in models():
         for pname, P in p0_menu(len(d["state"])):
@@ -150,7 +167,8 @@ def eval_case(case):
         # "bounded states, covariances and noises": the models are polynomial/transcendental in the state, so Jacobian
         # entries grow with |x|; beyond |x| = 64 the products H P H^T lose more digits to cancellation than any fixed
         # tolerance allows for, which is outside the property's quantifier
-        return bool(np.all(np.isfinite(a)) and np.all(np.isfinite(P)) and np.abs(a).max() <= 64.0 and np.abs(P).max() < 1e6)
+        return bool(np.all(np.isfinite(a)) and np.all(np.isfinite(P)) and np.abs(a).max() <= case.get("xbound", 64.0)
+                    and np.abs(P).max() < case.get("pbound", 1e6))
 
     if "long" in case and "history" not in case:
         n = 0
